@@ -28,7 +28,7 @@ def run(chk):
     chk.rule("PRECEDE", "every BuildPath64/D(.., isOpen=false, ..) is preceded on all paths, for the same OutRec, by CleanCollinear, and passes reverse_solution_")
     chk.rule("PLUMB", "preserve_collinear_/reverse_solution_ written only by their setters; preserve_collinear_ reaches CleanCollinear and TrimHorz; "
              "OutRec::path built only in CheckBounds; polytree children created from outrec->path")
-    chk.rule("GUARD", "BuildPath64/D: degenerate-ring guard table; copy loop appends only vertices different from the last appended")
+    chk.rule("GUARD", "BuildPath64/D: degenerate-ring guard table (a null ring is rejected before it is dereferenced); final filter table (only a closed three-point sliver is discarded); copy loop appends only vertices different from the last appended")
     chk.rule("POLY.cross", "CrossProductSign / IsCollinear / ProductsAreEqual compare two products whose difference is identically the cross product "
              "(pt2-pt1)x(pt3-pt2); portable path: magnitudes and signs of the same factors; 128-bit tail returns sign(ab-cd) / (ab==cd) on every ordering")
     chk.rule("T.removal", "CleanCollinear removes a vertex iff collinear and (duplicate of a neighbour or !PreserveCollinear or reversal)")
